@@ -1,4 +1,4 @@
-import VelaVerif.Gen.Mlw
+import VelaVerif.Model.MlwDecode
 /-!
 # End of an MLW stream (transcription of the tail of `mlw_encode` in `mlw_encode.c`)
 
@@ -10,7 +10,6 @@ outbuf_size = bitpos/8;
 ```
 -/
 namespace VelaVerif.Mlw
-open VelaVerif.Gen.Mlw
 
 /-- `n` low bits of `v`, least significant first (`bitbuf_put(bb, name, n, v)`) -/
 def putBits (n v : Nat) : List Bool := (List.range n).map fun i => v.testBit i
